@@ -30,11 +30,20 @@ LEVEL_TEXT = (
     "from_pruned builds a product grid whose shell at radius r has the least supported degree not below the degree "
     "requested for r's sector; _input_type_check accepts exactly the OneDGrids with a non-negative domain start, at "
     "least one node and no negative node, and centres of shape (3,); rotate=True/False act as the seeds 1/0, a "
-    "NumPy-integer seed is rejected by the shell loop (gen_init_bool, gen_init_npInt_rejected)."
+    "NumPy-integer seed is rejected by the shell loop (gen_init_bool, gen_init_npInt_rejected). "
+    "Round 3: `get_shell_grid`, `_generate_atomic_grid` (the shell loop as a body function over the loop-carried variables "
+    "+ an enumerate fold, `np.vstack` / `np.hstack`, the returned tuple) and `from_preset` (default radial grid with the "
+    "angstrom -> bohr arithmetic, table reads, the if / elif / else chain with the shell-count comprehension or the sector "
+    "lookup) are translated statement by statement as well, and the declared default value of every parameter is a "
+    "regenerated definition: gen_get_shell_grid_eq_model, loop_body_ok / loop_spec / gen_generate_atomic_grid_eq_model "
+    "(the regenerated loop is the hand model's assembly, for every seed kind), gen_from_preset_eq_model, and the clauses "
+    "restated over the generated text: preset_builds_gen (the flagship preset clause for the entry the code's own table read "
+    "finds), shell_grid_default_is_slice (get_shell_grid with the declared default r_sq is the slice of points and weights), "
+    "shell_grid_gen_rejects, default_arguments."
 )
 TECHNIQUE = "Lean 4 proof (structure theorems + kernel-decided regenerated preset table) + differential correspondence + implementation-side oracle"
 GEN = ["angular_tables", "presets", "atomgrid"]
-LEAN_MODULES = ["GridVerif.Props.C05", "GridVerif.Props.C05.Gen"]
+LEAN_MODULES = ["GridVerif.Props.C05", "GridVerif.Props.C05.Gen", "GridVerif.Props.C05.Gen3"]
 THEOREMS = [
     "GridVerif.C05.indices_spec",
     "GridVerif.C05.slice_shell",
@@ -72,6 +81,18 @@ THEOREMS = [
     "GridVerif.C05.sector_degree_gen",
     "GridVerif.C05.preset_request_sector_gen",
     "GridVerif.C05.pruned_builds",
+    # round 3: get_shell_grid, _generate_atomic_grid (loop included), from_preset, default values — regenerated
+    "GridVerif.C05.gen_get_shell_grid_eq_model",
+    "GridVerif.C05.loop_body_ok",
+    "GridVerif.C05.loop_spec",
+    "GridVerif.C05.gen_generate_atomic_grid_eq_model",
+    "GridVerif.C05.flatMap_expand",
+    "GridVerif.C05.entries_rad_wellformed",
+    "GridVerif.C05.gen_from_preset_eq_model",
+    "GridVerif.C05.preset_builds_gen",
+    "GridVerif.C05.shell_grid_default_is_slice",
+    "GridVerif.C05.shell_grid_gen_rejects",
+    "GridVerif.C05.default_arguments",
 ]
 RULE = (
     "correspondence: AtomGrid(...) / from_pruned / from_preset / get_shell_grid / _find_degrees_for_radial_points / "
@@ -85,7 +106,13 @@ RULE = (
     "float32 array, wrong length; radial grids ascending, reversed, two rules back to back, unsorted, with repeated and "
     "r = 0 nodes, as float64 / float32 / int64 / non-contiguous / read-only arrays, with domain (0, inf), (0, rmax), None, "
     "a negative domain start, a negative node, or not a OneDGrid at all; every successful construction is repeated later "
-    "in the run (other constructions in between) and compared bit for bit"
+    "in the run (other constructions in between) and compared bit for bit. Round 3: the regenerated static method "
+    "_generate_atomic_grid (direct calls: rotate omitted / int incl. negative and >= 2**32 seeds / bool / NumPy integer / float, "
+    "degrees as list / int64 / int32, wrong lengths, unsupported degrees, radial nodes and weights of extreme magnitude 1e-160 .. "
+    "1e150 / 1e-12 .. 1e12), the regenerated from_preset (sampled (preset, Z) pairs incl. the defective and non-tabulated ones, rgrid "
+    "given / None / omitted with the default radial grid, centre and rotate given or omitted) and the regenerated get_shell_grid "
+    "(every construction: r_sq True / False / omitted, alternating on one index, first request with the non-default option), "
+    "arguments omitted by the caller run through the regenerated default values, centres 2^10 .. 2^20 from the origin"
 )
 TRUSTED_BASE = [
     "Lean 4.33 kernel; axioms propext, Classical.choice, Quot.sound only (audited per theorem)",
@@ -93,7 +120,10 @@ TRUSTED_BASE = [
     "translator harness/translate/atomgrid.py (statement-wise AST translation of __init__ / from_pruned / _input_type_check / "
     "_generate_degree_from_radius / _find_degrees_for_radial_points over the typing context stated in its docstring; the "
     "NumPy / Python primitives it targets are hand-written in Model/AtomGrid.lean)",
-    "hand model Model/AtomGrid.lean (list/flatten structure of the assembly loop), tied by correspondence",
+    "hand model Model/AtomGrid.lean (list/flatten structure of the assembly loop), tied by correspondence and, since round 3, "
+    "proved equal to the regenerated `_generate_atomic_grid` (gen_generate_atomic_grid_eq_model)",
+    "round-3 primitives of Model/AtomGrid.lean (pyItem, npSetItem, npVstack / npHstack, pyForEnumerate, pyFlatMapM, pyRangeOfItem, "
+    "angularGrid, rRandomMatrix, PresetWorld = _DEFAULT_POWER_RTRANSFORM_PARAMS + the two SciPy constants + the default radial transform)",
     "NumPy vstack/hstack/broadcast/slice semantics as modelled by List.flatten/map/take/drop",
 ]
 ASSUMPTIONS = [
@@ -164,6 +194,8 @@ def _rand_center(ctx: Ctx):
         return None
     if r < 0.4:
         return np.zeros(3)
+    if r < 0.52:  # far from the origin: exactly representable coordinates of magnitude 2^10 .. 2^20 (classes 8, 12)
+        return np.array([float(ctx.rng.choice([-1, 1]) * 2 ** ctx.rng.randrange(10, 21) + ctx.rng.randrange(0, 4)) for _ in range(3)])
     return np.array([ctx.rng.uniform(-5, 5) for _ in range(3)])
 
 
@@ -183,15 +215,19 @@ def _seq_tok(x):
     if x is None:
         return "none"
     if isinstance(x, str):
-        return "other"
+        return "default" if x == "default" else "other"
     return "seq " + vec([int(v) for v in x])
 
 
 def _rot_tok(kind, val):
+    if kind == "default":  # argument omitted: the regenerated default value is used by the driver
+        return "default"
     return {"int": f"int {int(val)}", "npint": f"npint {int(val)}", "bool": f"bool {int(bool(val))}", "other": "other"}[kind]
 
 
 def _center_tok(c):
+    if isinstance(c, str):
+        return "default"
     return "none" if c is None else "vec " + fvec([float(v) for v in c])
 
 
@@ -217,21 +253,32 @@ def _world(ang, method, kind, reqs, rotate, n, shellreqs):
     seeds = [rotate + i for i in range(n)] if rotate != 0 else []
     mats = [f"{s} " + " ".join(map(f2b, _rotmat(s).ravel())) for s in seeds if 0 <= s < 2 ** 32]
     return " ".join([str(len(data))] + data + [str(len(mats))] + mats
-                    + [str(len(shellreqs))] + [f"{i} {1 if b else 0}" for i, b in shellreqs])
+                    + [str(len(shellreqs))] + [f"{i} {'d' if b is None else 1 if b else 0}" for i, b in shellreqs])
 
 
 def _ginit_line(ang, method, degrees, sizes, rot_kind, rot_val, center, pts, wts, shellreqs, is_onedgrid=True,
                 domain=(0.0, np.inf)):
-    """One C05.ginit line = the regenerated `AtomGrid.__init__` on Python-level arguments."""
+    """One C05.ginit line = the regenerated `AtomGrid.__init__` on Python-level arguments ("default" = argument omitted:
+    the driver uses the regenerated default; the angular data / matrices are supplied for the implementation's default)."""
     if isinstance(sizes, list):
         kind, reqs = "size", sizes
     elif isinstance(degrees, list):
         kind, reqs = "deg", degrees
+    elif degrees == "default" and sizes in (None, "default"):
+        kind, reqs = "deg", [int(d) for d in _sig_default("__init__", "degrees")]
     else:
         kind, reqs = "deg", []
-    rv = int(rot_val) if rot_kind in ("int", "npint", "bool") else 0
+    rv = int(rot_val) if rot_kind in ("int", "npint", "bool") else int(_sig_default("__init__", "rotate")) if rot_kind == "default" else 0
     return " ".join(["C05.ginit", method, _seq_tok(degrees), _seq_tok(sizes), _center_tok(center), _rot_tok(rot_kind, rot_val),
                      _rgrid_tok(pts, wts, is_onedgrid, domain), _world(ang, method, kind, reqs, rv, len(pts), shellreqs)])
+
+
+def _sig_default(fn, param):
+    """the default value the implementation declares (read from the signature, never typed in here)"""
+    import inspect
+
+    ag = importlib.import_module("grid.atomgrid")
+    return inspect.signature(getattr(ag.AtomGrid, fn)).parameters[param].default
 
 
 def _build_line(ang, method, kind, reqs, rotate, center, pts, wts, shellreqs):
@@ -314,7 +361,7 @@ def _compare_grid(ctx, key, case, impl_fn, ans: Ans, pts, center, shellreqs):
     try:
         g = impl_fn()
         impl = "ok"
-    except (ValueError, IndexError, TypeError) as e:
+    except (ValueError, IndexError, TypeError, KeyError) as e:
         g, impl = None, _exc_tag(e)
     if impl != ans.tag:
         ctx.fail("corr", key, f"{case}: implementation {impl}, model {ans.tag}", witness=case)
@@ -336,7 +383,7 @@ def _compare_grid(ctx, key, case, impl_fn, ans: Ans, pts, center, shellreqs):
         bad.append("weights differ" + _first_diff(g.weights, ans.weights))
     for (idx, rsq), (tag, mp, mw) in zip(shellreqs, ans.shell):
         try:
-            sg = g.get_shell_grid(idx, r_sq=rsq)
+            sg = g.get_shell_grid(idx) if rsq is None else g.get_shell_grid(idx, r_sq=rsq)  # None: r_sq left at its default
             itag = "ok"
         except (ValueError, IndexError, TypeError) as e:
             sg, itag = None, _exc_tag(e)
@@ -364,7 +411,11 @@ def _first_diff(a, b):
 
 
 def _shellreqs(ctx, n):
-    rq = [(ctx.rng.randrange(n), ctx.rng.random() < 0.5), (n - 1, True), (0, False)]
+    # first request of a fresh object: r_sq False / omitted / True in turn (class 11), then alternating options on one
+    # index (class 10: a memo keyed by the index only would show)
+    first = ctx.rng.choice([False, None, True])
+    k = ctx.rng.randrange(n)
+    rq = [(k, first), (k, not first if first is not None else False), (k, first), (n - 1, True), (0, False), (0, None)]
     if ctx.rng.random() < 0.4:
         rq.append((ctx.rng.choice([-1, n, n + 3, -n]), True))
     return rq
@@ -649,6 +700,8 @@ def corr(ctx: Ctx):
     ctx.extra["presets_pairs_checked"] = len(pairs_pz)
     # ---- 5. argument kinds, radial orders, repeated constructions (round 2)
     _corr_kinds(ctx, ag, ang, bg)
+    # ---- 6. the regenerated static method / from_preset / default values (round 3)
+    _corr_round3(ctx, ag, ang, bg)
 
 
 # ----------------------------------------------------------------------------
@@ -743,7 +796,8 @@ def _corr_kinds(ctx: Ctx, ag, ang, bg):
         dmax = MAXDEG[method]
         smax = max(s for d, s in pairs if d <= dmax)
         # request
-        form = rng.choice(["deg", "deg", "deg", "deg1", "size", "size", "size1", "both", "both", "default+size"] + (["none", "empty"] if rng.random() < 0.2 else []))
+        form = rng.choice(["deg", "deg", "deg", "deg1", "size", "size", "size1", "both", "both", "default+size"] + (["none", "empty"] if rng.random() < 0.2 else [])
+                          + (["default"] if rng.random() < 0.08 and n <= 3 and method == "lebedev" else []))
         degrees = sizes = None
         if form == "deg":
             degrees = [rng.randrange(0, dmax + 1) for _ in range(n)]
@@ -760,18 +814,22 @@ def _corr_kinds(ctx: Ctx, ag, ang, bg):
             degrees, sizes = "default", [rng.randrange(0, smax + 1) for _ in range(n)]
         elif form == "empty":
             degrees = []
+        elif form == "default":  # neither degrees nor sizes given
+            degrees = "default"
         dk = rng.choice(["list", "list", "int64", "int64", "int32", "int32", "readonly", "readonly", "tuple"])
         sk = rng.choice(["list", "list", "int64", "int64", "int32", "int32", "readonly", "readonly", "tuple"])
         # rotate
-        rot_kind = rng.choice(["int"] * 7 + ["bool", "bool", "bool", "npint", "other"])
+        rot_kind = rng.choice(["int"] * 7 + ["bool", "bool", "bool", "npint", "other", "default", "default"])
         if rot_kind == "bool":
             rot_val = rng.random() < 0.6
         elif rot_kind == "other":
             rot_val = 3.0
+        elif rot_kind == "default":  # rotate omitted
+            rot_val = None
         else:
             rot_val = rng.choice([0, 0, rng.randrange(1, 100000), rng.randrange(1, 100000), 2 ** 32 - n - 1, 2 ** 32 - n])
         # centre
-        ck = rng.choice(["none", "list", "intlist", "tuple", "intarray", "float32", "array", "readonly"] * 3 + ["short", "long"])
+        ck = rng.choice(["none", "omitted", "list", "intlist", "tuple", "intarray", "float32", "array", "readonly"] * 3 + ["short", "long"])
         cvals = [float(_exact32(ctx, -4, 4)) for _ in range(3)]
         if ck in ("intlist", "intarray"):
             cvals = [float(rng.randrange(-4, 5)) for _ in range(3)]
@@ -779,7 +837,7 @@ def _corr_kinds(ctx: Ctx, ag, ang, bg):
             cvals = cvals[:2]
         if ck == "long":
             cvals = cvals + [1.0]
-        center = None if ck == "none" else cvals
+        center = None if ck == "none" else "omitted" if ck == "omitted" else cvals
         cases.append(dict(method=method, order=order, pts=pts, wts=wts, dkind=dkind, is_one=is_one, domain=domain, rkind=rkind,
                           form=form, degrees=degrees, sizes=sizes, dk=dk, sk=sk, rot_kind=rot_kind, rot_val=rot_val, ck=ck,
                           center=center, sreq=_shellreqs(ctx, n)))
@@ -788,7 +846,7 @@ def _corr_kinds(ctx: Ctx, ag, ang, bg):
         if x is None:
             return None
         if x == "default":
-            return [50]
+            return "default"
         return "tuple" if kind == "tuple" else list(x)
 
     lines = [_ginit_line(ang, c["method"], tok_seq(c["degrees"], c["dk"]), tok_seq(c["sizes"], c["sk"]), c["rot_kind"], c["rot_val"],
@@ -815,14 +873,19 @@ def _corr_kinds(ctx: Ctx, ag, ang, bg):
             if c["sizes"] is not None:
                 kw["sizes"] = _py_seq(ctx, c["sizes"], c["sk"])
             cen = c["center"]
-            if cen is not None:
+            if c["ck"] == "omitted":
+                cen = None
+            elif cen is not None:
                 cen = {"list": list(cen), "intlist": [int(v) for v in cen], "tuple": tuple(cen), "intarray": np.array(cen, dtype=np.int64),
                        "float32": np.array(cen, dtype=np.float32), "array": np.array(cen), "short": list(cen), "long": list(cen),
                        "readonly": _readonly(np.array(cen))}[c["ck"]]
-            rot = {"int": int(c["rot_val"]), "npint": np.int64(c["rot_val"]), "bool": bool(c["rot_val"]), "other": c["rot_val"]}[c["rot_kind"]]
-            return AtomGrid(rgrid, center=cen, rotate=rot, method=c["method"], **kw)
+            if c["ck"] != "omitted":
+                kw["center"] = cen
+            if c["rot_kind"] != "default":
+                kw["rotate"] = {"int": lambda v: int(v), "npint": np.int64, "bool": bool, "other": lambda v: v}[c["rot_kind"]](c["rot_val"])
+            return AtomGrid(rgrid, method=c["method"], **kw)
 
-        cen_arr = None if c["center"] is None or len(c["center"]) != 3 else np.array(c["center"])
+        cen_arr = None if c["center"] is None or isinstance(c["center"], str) or len(c["center"]) != 3 else np.array(c["center"])
         g = _compare_grid(ctx, "AtomGrid.__init__:kinds", case, impl, a, np.abs(c["pts"]), cen_arr, c["sreq"])
         tag = (f"kinds:{c['order']}:{c['dkind']}:{c['rkind']}:{c['form']}:deg-{c['dk']}:size-{c['sk']}:rot-{c['rot_kind']}:center-{c['ck']}"
                + (":" + a.tag if a.tag != "ok" else ""))
@@ -925,6 +988,197 @@ def _corr_kinds(ctx: Ctx, ag, ang, bg):
             ctx.fail("corr", "AtomGrid._input_type_check", f"{case}: implementation {impl}, model {line}", witness=case)
 
 
+# ----------------------------------------------------------------------------
+# round 3: the regenerated `_generate_atomic_grid`, `from_preset`, default values
+# ----------------------------------------------------------------------------
+def _extreme_rgrid(ctx: Ctx):
+    """class 8: radial nodes / weights of extreme but legal magnitude (squares stay finite; r**2 may be denormal)"""
+    rng = ctx.rng
+    n = rng.choice([1, 2, 3, 4])
+    pts = [rng.choice([10.0 ** rng.uniform(-160, -20), 10.0 ** rng.uniform(-12, 12), 10.0 ** rng.uniform(20, 150), 0.0, rng.uniform(0, 3)]) for _ in range(n)]
+    scale = 10.0 ** rng.choice([-12, -6, 0, 6, 12])
+    wts = [scale * rng.uniform(0.1, 2.0) * rng.choice([1, 1, -1]) for _ in range(n)]
+    return np.array(pts, dtype=float), np.array(wts, dtype=float)
+
+
+def _corr_round3(ctx: Ctx, ag, ang, bg):
+    AtomGrid = ag.AtomGrid
+    rng = ctx.rng
+    utils = importlib.import_module("grid.utils")
+    import scipy.constants as sc
+
+    # ---- the regenerated static method `_generate_atomic_grid(rgrid, degrees, rotate=…, method=…)` (loop included) ----
+    cases = []
+    for k in range(ctx.n(70, 900)):
+        method = METHODS[k % 4]
+        pts, wts = _extreme_rgrid(ctx) if k % 5 == 4 else _rand_rgrid(ctx, n=(1 + k % 3) if k < 12 else None)
+        n = len(pts)
+        pairs = _supported(ang, method)
+        dmax = MAXDEG[method]
+        shape = rng.choice(["ok"] * 8 + ["badlen", "toolarge", "one-for-many"]) if k >= 8 else "ok"
+        degs = [rng.randrange(0, dmax + 1) for _ in range(n)]
+        if shape == "badlen":
+            degs = [rng.randrange(0, 12) for _ in range(rng.choice([x for x in (n + 1, n - 1, 0, n + 2) if x >= 0 and x != n]))]
+        elif shape == "toolarge":
+            degs[rng.randrange(n)] = max(d for d, _ in pairs) + rng.randrange(1, 4)
+        elif shape == "one-for-many":  # the static method does not broadcast a single degree
+            degs = degs[:1]
+        dkind = rng.choice(["list", "int64", "int32"])
+        rot_kind = rng.choice(["default", "default", "int", "int", "int", "int", "int", "int", "bool", "bool", "npint", "other"])
+        if rot_kind == "int":
+            rot_val = rng.choice([0, 1, 1, rng.randrange(2, 10 ** 5), rng.randrange(2, 10 ** 5), rng.randrange(2, 10 ** 5), 2 ** 32 - n - 1,
+                                  2 ** 32 - n, 2 ** 32 - 1, -1, -rng.randrange(2, 50)])
+        elif rot_kind == "bool":
+            rot_val = rng.random() < 0.6
+        elif rot_kind == "npint":
+            rot_val = rng.choice([0, 3])
+        else:
+            rot_val = None if rot_kind == "default" else 2.0
+        cases.append((method, pts, wts, degs, dkind, rot_kind, rot_val, shape))
+    lines = []
+    for (m, p, w, degs, dkind, rk, rv, shape) in cases:
+        seed = int(rv) if rk in ("int", "bool", "npint") else int(_sig_default("_generate_atomic_grid", "rotate")) if rk == "default" else 0
+        lines.append(" ".join(["C05.ggen", m, vec(degs), _rot_tok(rk, rv), _rgrid_tok(p, w), _world(ang, m, "deg", degs, seed, len(degs), [])]))
+    answers = driver_batch(lines)
+    for (m, p, w, degs, dkind, rk, rv, shape), line in zip(cases, answers):
+        case = {"op": "_generate_atomic_grid", "method": m, "degrees": degs, "degrees_as": dkind, "rotate": [rk, rv],
+                "rgrid_points": p.tolist(), "rgrid_weights": w.tolist()}
+        if line == "bad-op":
+            ctx.fail("corr", "AtomGrid._generate_atomic_grid", f"{case}: the model could not run (bad-op)", witness=case)
+            continue
+        kw = {}
+        if rk != "default":
+            kw["rotate"] = {"int": int, "bool": bool, "npint": np.int64, "other": float}[rk](rv)
+        if not (m == "lebedev" and rng.random() < 0.5):
+            kw["method"] = m  # otherwise the method is left at its default
+        dd = {"list": list, "int64": lambda x: np.array(x, dtype=np.int64), "int32": lambda x: np.array(x, dtype=np.int32)}[dkind](degs)
+        try:
+            P, W, I, D = AtomGrid._generate_atomic_grid(_onedgrid(bg, p, w), dd, **kw)
+            impl = "ok"
+        except (ValueError, IndexError, TypeError) as e:
+            impl = _exc_tag(e)
+        t = line.split()
+        ctx.count(case, nontrivial=True, tag=f"ggen:{m}:{shape}:rot-{rk}" + (":extreme" if np.any((p > 1e15) | ((p < 1e-15) & (p > 0))) else "") + (":" + impl if impl != "ok" else ""))
+        if impl != t[0]:
+            ctx.fail("corr", "AtomGrid._generate_atomic_grid", f"{case}: implementation {impl}, regenerated code {t[0]}", witness=case)
+            continue
+        if impl != "ok":
+            continue
+        a = Ans.__new__(Ans)
+        a.t, a.i = t, 1
+        mp = a._mat()
+        mw = a._floats()
+        mi = a._nats()
+        md = a._nats()
+        bad = []
+        pscale = max(float(np.max(np.abs(p))), 1e-300)
+        if not _arr_close(P, mp, pscale):
+            bad.append("points differ" + _first_diff(P, mp))
+        if not _arr_close(W, mw, np.maximum(np.abs(mw), np.abs(W)) if np.shape(W) == np.shape(mw) else 1.0):
+            bad.append("weights differ" + _first_diff(W, mw))
+        if [int(x) for x in I] != mi:
+            bad.append(f"indices {list(map(int, I))[:8]} vs {mi[:8]}")
+        if [int(x) for x in D] != md:
+            bad.append(f"actual degrees {list(map(int, D))[:8]} vs {md[:8]}")
+        for b in bad[:2]:
+            ctx.fail("corr", "AtomGrid._generate_atomic_grid", f"{case}: {b}", witness=case)
+
+    # ---- the regenerated `from_preset` ---------------------------------------------------------------------------------
+    tabs = _preset_tables()
+    allpairs = [(p, z) for p in sorted(tabs) for z in sorted(tabs[p][0])]
+    npick = ctx.n(40, 500)
+    pick = [("sg_3", 14), ("sg_0", 7), ("sg_0", 15), ("sg_1", 18), ("sg_1", 19), ("coarse", 1), ("sg_1", 85), ("g1", 1)]
+    pick += rng.sample(allpairs, min(len(allpairs), npick))
+    ang2bohr = sc.angstrom / sc.value("atomic unit of length")
+    defaults = utils._DEFAULT_POWER_RTRANSFORM_PARAMS
+    rt = importlib.import_module("grid.rtransform")
+    od = importlib.import_module("grid.onedgrid")
+    pc = []
+    for k, (p, z) in enumerate(pick):
+        method = rng.choice(METHODS) if rng.random() < 0.35 else "lebedev"
+        pairs = _supported(ang, method)
+        tab = tabs.get(p, ({}, {}))[0]
+        rk = rng.choice(["given"] * 6 + ["none", "omitted"]) if k >= 8 else ("given" if k != 5 else "omitted")
+        if z not in tab:
+            rad = npt = None
+        else:
+            rad, npt, nshell = tab[z]
+        zz = z
+        if rk != "given" and rng.random() < 0.25:
+            zz = rng.choice([z, 83, 90, 104])  # an element without default radial parameters (ValueError before anything else)
+            if zz not in tab:
+                rad = npt = None
+        if rk == "given":
+            if rad is None:
+                rp = np.linspace(0.1, 5, 12)
+            else:
+                rp = _preset_rgrid_points(ctx, rad, nshell, rng.random() < 0.93)
+            rw = np.array([rng.uniform(0.1, 1.0) for _ in rp])
+            dom = (0.0, np.inf)
+            rg_tok, wgrid = "some " + _rgrid_tok(rp, rw, True, dom), "nogrid"
+        else:
+            rg_tok = "none" if rk == "none" else "default"
+            if zz in defaults:
+                rmin, rmax, n0 = defaults[zz]
+                x, y = rmin * ang2bohr, rmax * ang2bohr
+                dg = rt.PowerRTransform(x, y).transform_1d_grid(od.UniformInteger(n0))
+                rp, rw, dom = dg.points, dg.weights, dg.domain
+                wgrid = f"grid {f2b(x)} {f2b(y)} {n0} " + _rgrid_tok(rp, rw, True, dom)
+            else:
+                rp, rw, dom, wgrid = np.array([1.0]), np.array([1.0]), None, "nogrid"
+        entry = f"entry {zz} {f2b(defaults[zz][0])} {f2b(defaults[zz][1])} {defaults[zz][2]}" if zz in defaults else "none"
+        # expected size of the grid (brute force over the table) to keep the lines small
+        total = 0
+        if npt is not None:
+            if rad.dtype.kind == "i":
+                total = sum(int(c) * ((_least_size(pairs, int(s)) or (0, 0))[1]) for c, s in zip(rad, npt))
+            else:
+                total = len(rp) * max((_least_size(pairs, int(s)) or (0, 0))[1] for s in npt)
+        if total > 30000:
+            continue
+        ck = rng.choice(["omitted", "none", "vec", "vec"])
+        cen = None if ck != "vec" else _rand_center(ctx)
+        rot_kind = rng.choice(["default", "int", "int", "bool"])
+        rot_val = None if rot_kind == "default" else (rng.random() < 0.5) if rot_kind == "bool" else rng.choice([0, rng.randrange(1, 10 ** 5)])
+        seed = int(rot_val) if rot_kind != "default" else int(_sig_default("from_preset", "rotate"))
+        sreq = [(0, None), (len(rp) - 1, True)]
+        world = _world(ang, method, "size", [int(s) for s in npt] if npt is not None else [], seed, len(rp), sreq)
+        line = " ".join(["C05.gpreset", method, str(zz), p, rg_tok, _center_tok("omitted" if ck == "omitted" else cen), _rot_tok(rot_kind, rot_val),
+                         entry, f2b(sc.angstrom), f2b(sc.value("atomic unit of length")), wgrid, world])
+        pc.append((p, zz, method, rk, rp, rw, dom, ck, cen, rot_kind, rot_val, sreq, line))
+    answers = driver_batch([c[-1] for c in pc])
+    for (p, z, m, rk, rp, rw, dom, ck, cen, rot_kind, rot_val, sreq, _), line in zip(pc, answers):
+        case = {"op": "from_preset", "preset": p, "atnum": z, "method": m, "rgrid": rk, "rgrid_points": rp.tolist() if rk == "given" else None,
+                "rgrid_weights": rw.tolist() if rk == "given" else None, "center": None if cen is None else cen.tolist(), "center_as": ck,
+                "rotate": [rot_kind, rot_val]}
+        if line == "bad-op":
+            ctx.fail("corr", "AtomGrid.from_preset:gen", f"{case}: the model could not run (bad-op)", witness=case)
+            continue
+
+        def impl(p=p, z=z, m=m, rk=rk, rp=rp, rw=rw, dom=dom, ck=ck, cen=cen, rot_kind=rot_kind, rot_val=rot_val):
+            kw = {"method": m}
+            if rk == "given":
+                kw["rgrid"] = bg.OneDGrid(np.array(rp), np.array(rw), dom)
+            elif rk == "none":
+                kw["rgrid"] = None
+            if ck != "omitted":
+                kw["center"] = cen
+            if rot_kind != "default":
+                kw["rotate"] = bool(rot_val) if rot_kind == "bool" else int(rot_val)
+            return AtomGrid.from_preset(z, p, **kw)
+
+        a = Ans(line)
+        _compare_grid(ctx, "AtomGrid.from_preset:gen", case, impl, a, rp, cen, sreq)
+        ctx.count(case, nontrivial=True, tag=f"gpreset:{p}:rgrid-{rk}:center-{ck}:rot-{rot_kind}" + (":" + a.tag if a.tag != "ok" else ""))
+
+    # ---- the default angular method of every translated function ---------------------------------------------------------
+    ans = driver_batch(["C05.default-method"])[0].split()
+    want = ["ok"] + [str(_sig_default(f, "method")) for f in ("__init__", "from_pruned", "from_preset", "_generate_atomic_grid", "_generate_degree_from_radius")]
+    ctx.count(["default-method", want], nontrivial=True, tag="defaults:method")
+    if ans != want:
+        ctx.fail("corr", "AtomGrid:default-method", f"default methods: implementation {want[1:]}, regenerated {ans[1:]}")
+
+
 def _raise(tag):
     raise {"value-error": ValueError, "index-error": IndexError, "type-error": TypeError}.get(tag, RuntimeError)(tag)
 
@@ -974,13 +1228,15 @@ assert idx[0] == 0 and idx[-1] == g.size and len(idx) == len(pts) + 1
 for i, d in enumerate(g.degrees):
     a = AngularGrid(degree=d, method=method)
     R = Rotation.random(random_state=rotate + i).as_matrix() if rotate else np.eye(3)
-    want = center + pts[i] * (a.points @ R)
+    rel = pts[i] * (a.points @ R)
     got = g.points[idx[i]:idx[i + 1]]
-    assert got.shape == want.shape and np.allclose(got, want, rtol=0, atol=1e-12 * max(1, pts[i], abs(center).max())), f'shell {{i}}: points are not centre + r_i (u_j R_i)'
+    tol = 1e-11 * max(pts[i], abs(center).max()) + 1e-300   # c + r u is rounded relative to max(|c|, r)
+    assert got.shape == rel.shape and np.all(abs(got - (center + rel)) <= tol + 1e-11 * pts[i]), f'shell {{i}}: points are not centre + r_i (u_j R_i)'
     ww = a.weights * wts[i] * pts[i] ** 2
-    assert np.allclose(g.weights[idx[i]:idx[i + 1]], ww, rtol=1e-12, atol=0), f'shell {{i}}: weights are not w_i r_i^2 omega_j'
+    assert np.all(abs(g.weights[idx[i]:idx[i + 1]] - ww) <= 1e-12 * abs(ww) + 2e-323), f'shell {{i}}: weights are not w_i r_i^2 omega_j'
     sg = g.get_shell_grid(i)
-    assert np.allclose(sg.points, got - center, rtol=0, atol=1e-12 * max(1, pts[i], abs(center).max())) and np.allclose(sg.weights, ww, rtol=1e-12, atol=0), f'shell {{i}}: get_shell_grid differs from the slice'
+    assert np.all(abs(sg.points - rel) <= 1e-11 * pts[i] + 1e-300) and np.all(abs(sg.weights - ww) <= 1e-12 * abs(ww) + 2e-323), (
+        f'shell {{i}}: get_shell_grid does not carry the shell (points relative to the centre, weights w_i r_i^2 omega_j)')
 """
 
 
@@ -1021,9 +1277,13 @@ def _oracle_grid(ctx, ag, ang, bg, method, pts, wts, degs, rotate, center, key):
         U, om = a.points, a.weights
         S = P[idx[i]:idx[i + 1]] - c
         r = float(pts[i])
-        # radii preserved
-        rad = np.sqrt((S ** 2).sum(axis=1))
-        if not np.all(np.abs(rad - r * np.sqrt((U ** 2).sum(axis=1))) <= 1e-11 * scale):
+        # tolerance of one shell: the stored point c + r u is rounded relative to max(|c|, r) — not to the largest radius of
+        # the grid (a shell of radius 1e-50 next to one of radius 1 must still be a sphere of radius 1e-50)
+        cmax = float(np.max(np.abs(c)))
+        tol_i = 1e-11 * max(r, cmax) + 1e-300
+        # radii preserved (hypot: no underflow of the squares for radii down to 1e-160)
+        hyp = lambda A: np.hypot(np.hypot(A[:, 0], A[:, 1]), A[:, 2])  # noqa: E731
+        if not np.all(np.abs(hyp(S) - r * hyp(U)) <= tol_i):
             return fail(f"shell {i}: |p - c| differs from r_i = {r}")
         # orthogonal image of the unit grid: Gram matrices agree, implied map is SciPy's for seed rotate+i
         if r > 1e-3:
@@ -1039,17 +1299,27 @@ def _oracle_grid(ctx, ag, ang, bg, method, pts, wts, degs, rotate, center, key):
         # weights, exact rationals on a sample
         ww = W[idx[i]:idx[i + 1]]
         for j in sorted({0, len(om) - 1, ctx.rng.randrange(len(om))}):
+            if not np.isfinite(ww[j]):
+                return fail(f"shell {i}, node {j}: weight {ww[j]!r} is not finite although w_i r_i^2 omega_j is representable")
             exact = Fraction(float(om[j])) * Fraction(float(wts[i])) * Fraction(r) ** 2
-            if abs(Fraction(float(ww[j])) - exact) > abs(exact) * Fraction(1, 10 ** 13):
+            # relative 1e-13; results below the normal range are rounded to the subnormal spacing 2^-1074 (three roundings)
+            if abs(Fraction(float(ww[j])) - exact) > max(abs(exact) * Fraction(1, 10 ** 13), Fraction(4, 2 ** 1074)):
                 return fail(f"shell {i}, node {j}: weight {ww[j]!r} is not w_i r_i^2 omega_j = {float(exact)!r}")
-        if not np.all(np.abs(ww - om * wts[i] * r * r) <= 1e-12 * np.abs(ww)):
+        if not np.all(np.abs(ww - om * wts[i] * r * r) <= 1e-12 * np.abs(ww) + 2e-323):
             return fail(f"shell {i}: weights are not w_i r_i^2 omega_j")
-        # per-shell grid on request
+        # per-shell grid on request: its points are relative to the centre, so they do not depend on where the centre is
+        # (reference r_i (u_j R_i) built from the unit grid and SciPy's matrix, tolerance relative to r_i alone)
+        Rsh = _rotmat(rotate + i) if rotate else np.eye(3)
+        Sref = r * (U @ Rsh)
+        tol_s = 1e-11 * r + 1e-300
+        if not np.all(np.abs(S - Sref) <= tol_i + tol_s):
+            return fail(f"shell {i}: points are not centre + r_i (u_j R_i) with R_i = Rotation.random(random_state={rotate}+{i})" if rotate
+                        else f"shell {i}: points are not centre + r_i u_j")
         for rsq in (True, False):
             sg = g.get_shell_grid(i, r_sq=rsq)
             wref = ww if rsq else om * wts[i]
-            if sg.points.shape != S.shape or not np.all(np.abs(sg.points - S) <= 1e-11 * scale) or \
-                    not np.all(np.abs(sg.weights - wref) <= 1e-12 * np.abs(wref)):
+            if sg.points.shape != S.shape or not np.all(np.abs(sg.points - Sref) <= tol_s) or \
+                    not np.all(np.abs(sg.weights - wref) <= 1e-12 * np.abs(wref) + 2e-323):
                 return fail(f"get_shell_grid({i}, r_sq={rsq}) is not the shell's slice relative to the centre")
             # a repeated request after the caller has used the first one as its own object (moved it to the lab frame,
             # rescaled its weights, in place and through the setters) must again be that shell
@@ -1061,8 +1331,8 @@ def _oracle_grid(ctx, ag, ang, bg, method, pts, wts, degs, rotate, center, key):
             except (ValueError, AttributeError):
                 pass
             sg2 = g.get_shell_grid(i, r_sq=rsq)
-            if sg2.points.shape != S.shape or not np.all(np.abs(sg2.points - S) <= 1e-11 * scale) or \
-                    not np.all(np.abs(sg2.weights - wref) <= 1e-12 * np.abs(wref)):
+            if sg2.points.shape != S.shape or not np.all(np.abs(sg2.points - Sref) <= tol_s) or \
+                    not np.all(np.abs(sg2.weights - wref) <= 1e-12 * np.abs(wref) + 2e-323):
                 return fail(f"get_shell_grid({i}, r_sq={rsq}) requested again after the first returned grid was modified by its owner is not the shell's slice relative to the centre")
             if not (np.array_equal(g.points, P) and np.array_equal(g.weights, W)):
                 return fail(f"modifying the grid returned by get_shell_grid({i}, r_sq={rsq}) changed the atomic grid itself")
@@ -1078,6 +1348,8 @@ def _oracle_grid(ctx, ag, ang, bg, method, pts, wts, degs, rotate, center, key):
         return fail(f"rotation seed {rot2} instead of {rotate} changed radii, weights or the index table")
     # moving the centre only translates
     t = np.array([ctx.rng.uniform(-3, 3) for _ in range(3)])
+    if ctx.rng.random() < 0.4:  # class 8: a far, exactly representable shift (2^10 .. 2^20)
+        t = np.array([float(ctx.rng.choice([-1, 1]) * 2 ** ctx.rng.randrange(10, 21)) for _ in range(3)])
     g4 = AtomGrid(_onedgrid(bg, pts, wts), degrees=list(degs), center=c + t, rotate=rotate, method=method)
     if not np.array_equal(g4.weights, W) or [int(x) for x in g4.indices] != idx or \
             not np.all(np.abs(g4.points - P - t) <= 1e-11 * (scale + np.max(np.abs(t)))):
@@ -1091,7 +1363,7 @@ def _oracle_grid(ctx, ag, ang, bg, method, pts, wts, degs, rotate, center, key):
         ec = tot - ea - eb if ctx.rng.random() < 0.7 else ctx.rng.randrange(0, tot - ea - eb + 1)
         alpha = ctx.rng.uniform(0.05, 0.6)
         gfun = lambda r: np.exp(-alpha * r) * (1 + r)
-        lhs, rhs_rad, mag = 0.0, 0.0, 0.0
+        lhs, rhs_rad, mag, slack = 0.0, 0.0, 0.0, 0.0
         for i in range(n):
             r = float(pts[i])
             if r == 0.0:
@@ -1101,11 +1373,25 @@ def _oracle_grid(ctx, ag, ang, bg, method, pts, wts, degs, rotate, center, key):
             vals = gfun(r) * D[:, 0] ** ea * D[:, 1] ** eb * D[:, 2] ** ec
             lhs += float(np.sum(vals * ww))
             mag += float(np.sum(np.abs(ww))) * abs(gfun(r))
+            # the directions are recovered from the stored points as (p - c) / r: cancellation error eps |c| / r per coordinate
+            # (a measurement artefact of this test for centres far from the origin, not of the grid)
+            slack += float(np.sum(np.abs(ww))) * abs(gfun(r)) * (tot + 1) * 4.5e-16 * float(np.max(np.abs(c))) / r
             rhs_rad += wts[i] * r * r * gfun(r)
         rhs = rhs_rad * _sphere_monomial_integral(ea, eb, ec)
-        if abs(lhs - rhs) > 1e-9 * max(mag, 1e-300):
+        if abs(lhs - rhs) > 1e-9 * max(mag, 1e-300) + slack:
             return fail(f"integral of g(r) x^{ea} y^{eb} z^{ec} (degree {ea + eb + ec} <= smallest shell degree {lmin}) = {lhs!r}, radial sum x exact angular integral = {rhs!r}")
     return g
+
+
+def _tabulated_sizes(rad, npt, rp):
+    """tabulated size of each shell, by the reading the table's own shape prescribes"""
+    if rad.dtype.kind == "i":
+        return [int(npt[i]) if i < len(npt) else None for i in range(len(rad)) for _ in range(int(rad[i]))]
+    out = []
+    for r in rp:
+        ksec = sum(1 for b in rad if b < r)
+        out.append(int(npt[ksec]) if ksec < len(npt) else None)
+    return out
 
 
 def oracle(ctx: Ctx, budget: str):
@@ -1113,6 +1399,7 @@ def oracle(ctx: Ctx, budget: str):
     AtomGrid = ag.AtomGrid
     rng = ctx.rng
     _oracle_kinds(ctx, ag, ang, bg, budget)
+    _oracle_round3(ctx, ag, ang, bg, budget)
     # ---- random grids -----------------------------------------------------------------------
     for k in range(24 if budget == "small" else 400):
         method = METHODS[k % 4]
@@ -1203,14 +1490,7 @@ def oracle(ctx: Ctx, budget: str):
                 if len(sizes) != npts_r:
                     ctx.fail("oracle", key, f"from_preset({z}, {p!r}) built {len(sizes)} shells on {npts_r} radial points", snippet=snip)
                     continue
-                # tabulated size of each shell, by the reading the table's own shape prescribes
-                if shell_count:
-                    tabsz = [int(npt[i]) if i < len(npt) else None for i in range(len(rad)) for _ in range(int(rad[i]))]
-                else:
-                    tabsz = []
-                    for r in rp:
-                        ksec = sum(1 for b in rad if b < r)
-                        tabsz.append(int(npt[ksec]) if ksec < len(npt) else None)
+                tabsz = _tabulated_sizes(rad, npt, rp)
                 coarse = [(i, int(s), t) for i, (s, t) in enumerate(zip(sizes, tabsz)) if t is None or s < t]
                 exact_min = [(i, int(s), t) for i, (s, t) in enumerate(zip(sizes, tabsz))
                              if t is not None and _least_size(pairs, t) is not None and s != _least_size(pairs, t)[1]]
@@ -1238,6 +1518,307 @@ def oracle(ctx: Ctx, budget: str):
             continue
         _oracle_grid(ctx, ag, ang, bg, "lebedev", rp, np.full(n, 0.37), [int(d) for d in g.degrees], rng.randrange(1, 1000),
                      np.array([0.3, -1.0, 2.0]), f"atomgrid.AtomGrid.from_preset:{p}")
+
+
+# ----------------------------------------------------------------------------
+# round 3 (AGENT_ROUND3 classes 8 - 12), implementation side
+# ----------------------------------------------------------------------------
+SNIP_HISTORY = SNIP_HEAD + """pts, wts = np.array({pts!r}), np.array({wts!r})
+degs, rotate, center, method = {degs!r}, {rotate}, {center!r}, {method!r}
+def build():
+    return AtomGrid(OneDGrid(pts.copy(), wts.copy(), (0, np.inf)), degrees=list(degs), center=list(center), rotate=rotate, method=method)
+ref = build()
+P0, W0, I0, D0 = ref.points.copy(), ref.weights.copy(), [int(x) for x in ref.indices], [int(x) for x in ref.degrees]
+def shell_ref(i, rsq):
+    a = AngularGrid(degree=D0[i], method=method)
+    return P0[I0[i]:I0[i + 1]] - np.array(center), (W0[I0[i]:I0[i + 1]] if rsq else a.weights * wts[i])
+g = build()
+done = []
+for op in {ops!r}:
+    if op[0] == 'points-edit':
+        a = g.points; a += 7.0; a *= -2.0
+    elif op[0] == 'shell':
+        sg = g.get_shell_grid(op[1]) if op[2] is None else g.get_shell_grid(op[1], r_sq=op[2])
+        rp, rw = shell_ref(op[1], op[2] is not False)
+        tol = 1e-11 * max(1.0, abs(pts).max(), abs(np.array(center)).max())
+        assert sg.points.shape == rp.shape and np.all(abs(sg.points - rp) <= tol) and np.all(abs(sg.weights - rw) <= 1e-12 * abs(rw) + 2e-323), (
+            f'after {{done}}: get_shell_grid({{op[1]}}, r_sq={{op[2]}}) is not shell {{op[1]}} of the grid (points relative to the centre; weights w_i r_i^2 omega_j, without r_i^2 for r_sq=False)')
+        if op[3]:
+            sg.points[...] += 3.0; sg.weights[...] *= 5.0; sg.points = sg.points * 2.0; sg.weights = sg.weights + 1.0
+    elif op[0] == 'integrate':
+        v = g.integrate(np.ones(g.size)); assert abs(v - W0.sum()) <= 1e-9 * abs(W0).sum() + 1e-300, f'after {{done}}: integrate(1) = {{v}}'
+    elif op[0] == 'spherical':
+        g.convert_cartesian_to_spherical()
+    elif op[0] == 'reads':
+        g.size, g.n_shells, g.l_max, g.rotate, g.method, g.center, g.rgrid, g.basis
+    done = done + [op]
+    assert np.array_equal(g.points, P0), f'after {{done}}: grid.points changed'
+    assert np.array_equal(g.weights, W0) and [int(x) for x in g.indices] == I0 and [int(x) for x in g.degrees] == D0, f'after {{done}}: weights / indices / degrees changed'
+"""
+
+FRESH_LIB = """import warnings; warnings.filterwarnings('ignore')
+import hashlib, json, sys
+import numpy as np
+from grid.atomgrid import AtomGrid
+from grid.basegrid import OneDGrid
+def digest(sp, default_first):
+    rg = OneDGrid(np.array(sp['pts']), np.array(sp['wts']), (0, np.inf))
+    kw = dict(center=sp['center'], rotate=sp['rotate'], method=sp['method'])
+    if sp['route'] == 'sizes':
+        g = AtomGrid(rg, None, sizes=sp['req'], **kw)
+    elif sp['route'] == 'pruned':
+        g = AtomGrid.from_pruned(rg, sp['radius'], r_sectors=sp['rsect'], d_sectors=None, s_sectors=sp['req'], **kw)
+    elif sp['route'] == 'preset':
+        g = AtomGrid.from_preset(sp['atnum'], sp['preset'], rg, **kw)
+    else:
+        g = AtomGrid(rg, degrees=sp['req'], **kw)
+    if default_first:
+        sg2 = g.get_shell_grid(sp['shell']); sg = g.get_shell_grid(sp['shell'], r_sq=False)
+    else:   # first request of the fresh object with the non-default option
+        sg = g.get_shell_grid(sp['shell'], r_sq=False); sg2 = g.get_shell_grid(sp['shell'])
+    h = hashlib.sha256()
+    for a in (sg.points, sg.weights, sg2.points, sg2.weights, g.points, g.weights, np.asarray(g.indices, dtype=np.int64), np.asarray(g.degrees, dtype=np.int64)):
+        h.update(np.ascontiguousarray(a).tobytes())
+    return h.hexdigest()
+"""
+
+FRESH_MAIN = FRESH_LIB + """out = []
+for sp in json.loads(sys.argv[1]):
+    try:
+        out.append(digest(sp, False))
+    except Exception as e:
+        out.append('raised ' + type(e).__name__ + ': ' + str(e)[:200])
+print('@@' + json.dumps(out))
+"""
+
+# replay of one fresh-process disagreement: run in a new interpreter it builds the grid first, then other grids, then again
+FRESH_SNIP = FRESH_LIB + """sp = json.loads({spec!r})
+try:
+    first = digest(sp, False)
+except Exception as e:
+    raise AssertionError('as the first call of a fresh interpreter the construction raises ' + type(e).__name__ + ': ' + str(e))
+for m in ('lebedev', 'spherical', 'maxdet', 'ahrens_beylkin'):
+    AtomGrid(OneDGrid(np.array([0.5, 1.0, 2.0]), np.ones(3), (0, np.inf)), degrees=[3, 5, 7], method=m).get_shell_grid(1)
+later = digest(sp, True)
+assert first == later, 'the grid built as the first call of a fresh interpreter (get_shell_grid(r_sq=False) first) differs from the same construction after other grids were built'
+"""
+
+
+def _fresh_digest(sp):
+    ns = {"__name__": "c05_fresh"}
+    exec(compile(FRESH_LIB, "<c05-fresh>", "exec"), ns)
+    try:
+        return ns["digest"](sp, True)
+    except Exception as e:  # noqa: BLE001
+        return "raised " + type(e).__name__ + ": " + str(e)[:200]
+
+
+def _oracle_round3(ctx: Ctx, ag, ang, bg, budget):
+    AtomGrid = ag.AtomGrid
+    rng = ctx.rng
+    large = budget != "small"
+    import warnings as _w
+
+    # ---- classes 9, 10, 11: one object, its public methods in random orders, everything it hands out used by the caller
+    # as its own (edited in place and through the setters), non-default options first; after every step the grid must
+    # still be the product grid (compared with a twin that is only read)
+    for k in range(10 if not large else 150):
+        method = METHODS[k % 4]
+        pts, wts = _ordered_rgrid(ctx, ORDERS[k % len(ORDERS)])
+        n = len(pts)
+        degs = [rng.randrange(0, MAXDEG[method] + 1) for _ in range(n)]
+        rotate = rng.choice([0, rng.randrange(1, 10 ** 5)])
+        center = [float(rng.choice([0, rng.randrange(-4, 5), rng.choice([-1, 1]) * 2 ** rng.randrange(10, 21)])) for _ in range(3)]
+        ops = []
+        for _ in range(rng.randrange(6, 12)):
+            kind = rng.choice(["points-edit", "shell", "shell", "shell", "integrate", "spherical", "reads"])
+            if kind == "shell":
+                ops.append(("shell", rng.randrange(n), rng.choice([True, False, None]), rng.random() < 0.7))
+            else:
+                ops.append((kind,))
+        if k % 3 == 0:  # the very first request of the fresh object uses the non-default option, then the default on the same index
+            i0 = rng.randrange(n)
+            ops = [("shell", i0, False, True), ("shell", i0, None, True), ("shell", i0, False, False)] + ops
+        code = SNIP_HISTORY.format(pts=pts.tolist(), wts=wts.tolist(), degs=degs, rotate=rotate, center=center, method=method, ops=ops)
+        ctx.count(["history", method, degs, rotate, center, ops], nontrivial=True, tag="oracle:history:" + ("first-non-default" if k % 3 == 0 else "random"))
+        try:
+            exec(compile(code, "<c05-history>", "exec"), {"__name__": "c05_history"})
+        except AssertionError as e:
+            ctx.fail("oracle", "atomgrid.AtomGrid:history", f"{str(e)[:300]} [method={method}, degrees={degs}, rotate={rotate}, center={center}]",
+                     witness={"method": method, "rgrid_points": pts.tolist(), "rgrid_weights": wts.tolist(), "degrees": degs, "rotate": rotate,
+                              "center": center, "ops": [list(o) for o in ops]}, snippet=code)
+        except Exception as e:  # noqa: BLE001
+            ctx.fail("oracle", "atomgrid.AtomGrid:history", f"history raised {type(e).__name__}: {e} [method={method}, degrees={degs}, rotate={rotate}]",
+                     witness={"method": method, "rgrid_points": pts.tolist(), "degrees": degs, "rotate": rotate, "ops": [list(o) for o in ops]}, snippet=code)
+
+    # ---- class 9, the caller's own inputs after the construction: the arrays it passed for degrees / sizes / sectors and the
+    # list it passed for the centre are reused for the next atom; the first grid must not move
+    for k in range(8 if not large else 100):
+        method = rng.choice(METHODS)
+        pairs = _supported(ang, method)
+        pts, wts = _ordered_rgrid(ctx, rng.choice(ORDERS))
+        n = len(pts)
+        route = ["degrees", "sizes", "pruned-d", "pruned-s"][k % 4]
+        cen = [float(rng.randrange(-3, 4)) for _ in range(3)]
+        smax = max(sz for d, sz in pairs if d <= MAXDEG[method])
+        with _w.catch_warnings():
+            _w.simplefilter("ignore")
+            if route == "degrees":
+                arr = np.array([rng.randrange(0, MAXDEG[method] + 1) for _ in range(n)], dtype=np.int64)
+                mk = lambda a: AtomGrid(_onedgrid(bg, pts, wts), degrees=a, center=cen, method=method)  # noqa: E731
+            elif route == "sizes":
+                arr = np.array([rng.randrange(0, smax + 1) for _ in range(n)], dtype=np.int64)
+                mk = lambda a: AtomGrid(_onedgrid(bg, pts, wts), None, sizes=a, center=cen, method=method)  # noqa: E731
+            else:
+                S = rng.randrange(1, 4)
+                rsect = np.array(sorted(rng.uniform(0.05, 4) for _ in range(S)))
+                hi = MAXDEG[method] if route == "pruned-d" else smax
+                arr = np.array([rng.randrange(0, hi + 1) for _ in range(S + 1)], dtype=np.int64)
+                if route == "pruned-d":
+                    mk = lambda a: AtomGrid.from_pruned(_onedgrid(bg, pts, wts), 1.3, r_sectors=rsect, d_sectors=a, center=cen, method=method)  # noqa: E731
+                else:
+                    mk = lambda a: AtomGrid.from_pruned(_onedgrid(bg, pts, wts), 1.3, r_sectors=rsect, d_sectors=None, s_sectors=a, center=cen, method=method)  # noqa: E731
+            orig = arr.copy()
+            g = mk(arr)
+            ref = (g.points.copy(), g.weights.copy(), [int(x) for x in g.indices], [int(x) for x in g.degrees])
+            arr[...] = 0            # the caller recycles its array for the next atom
+            cen[0] += 11.0          # ... and its centre list
+            if route.startswith("pruned"):
+                rsect[...] *= 3.0
+            g2 = mk(np.array(orig) if False else arr)  # another construction in between
+            now = (g.points, g.weights, [int(x) for x in g.indices], [int(x) for x in g.degrees])
+            sg = g.get_shell_grid(n - 1, r_sq=True)
+        ctx.count(["inputs-after", route, method, orig.tolist()], nontrivial=True, tag="oracle:inputs-after:" + route)
+        i0, i1 = ref[2][n - 1], ref[2][n]
+        if not (np.array_equal(now[0], ref[0]) and np.array_equal(now[1], ref[1]) and now[2] == ref[2] and now[3] == ref[3]
+                and np.allclose(sg.weights, ref[1][i0:i1], rtol=1e-12, atol=0)):
+            ctx.fail("oracle", "atomgrid.AtomGrid:inputs-after-construction",
+                     f"a grid built through {route} changes when the caller later overwrites the arrays / lists it had passed [method={method}, request={orig.tolist()}]",
+                     witness={"route": route, "method": method, "request": orig.tolist(), "rgrid_points": pts.tolist()})
+
+    # ---- class 11: the same constructions as the *first* calls of a fresh interpreter (non-default options first) ---------
+    import json
+    import os
+    import subprocess
+    import sys
+
+    tabs = _preset_tables()
+    specs = []
+    for k in range(6 if not large else 24):
+        method = [m for m in METHODS if m != "lebedev"][k % 3] if k % 4 != 3 else "lebedev"  # the very first call: a non-default method
+        pairs = _supported(ang, method)
+        pts, wts = _ordered_rgrid(ctx, ORDERS[k % len(ORDERS)])
+        n = len(pts)
+        smax = max(sz for d, sz in pairs if d <= MAXDEG[method])
+        route = ["sizes", "pruned", "degrees", "preset"][k % 4]
+        sp = dict(pts=pts.tolist(), wts=wts.tolist(), method=method, rotate=rng.randrange(1, 10 ** 5), center=[float(rng.randrange(-3, 4)) for _ in range(3)],
+                  route=route, shell=rng.randrange(n))
+        if route == "sizes":
+            sp["req"] = [rng.randrange(0, smax + 1) for _ in range(n)]
+        elif route == "degrees":
+            sp["req"] = [rng.randrange(0, MAXDEG[method] + 1) for _ in range(n)]
+        elif route == "pruned":
+            S = rng.randrange(1, 4)
+            sp.update(radius=rng.uniform(0.5, 2.0), rsect=sorted(rng.uniform(0.05, 4) for _ in range(S)), req=[rng.randrange(0, smax + 1) for _ in range(S + 1)])
+        else:
+            sp.update(preset=rng.choice(["coarse", "medium"]), atnum=rng.choice([1, 6, 8]))
+            nsh = tabs[sp["preset"]][0][sp["atnum"]][2] or 12
+            rp = np.sort(np.array([rng.uniform(0, 6.0) for _ in range(min(nsh, 12))]))
+            sp.update(pts=rp.tolist(), wts=[1.0] * len(rp), shell=rng.randrange(len(rp)))
+        specs.append(sp)
+    env = dict(os.environ)
+    if os.environ.get("GRID_REPO"):
+        env["PYTHONPATH"] = os.path.join(os.environ["GRID_REPO"], "src") + os.pathsep + env.get("PYTHONPATH", "")
+    try:
+        p = subprocess.run([sys.executable, "-c", FRESH_MAIN, json.dumps(specs)], env=env, cwd="/", capture_output=True, text=True, timeout=600)
+        res = next(json.loads(ln[2:]) for ln in p.stdout.splitlines() if ln.startswith("@@"))
+    except Exception as e:  # noqa: BLE001
+        ctx.fail("corr", "oracle-crash", f"fresh interpreter run failed: {type(e).__name__}: {e}")
+        res = []
+    for sp, dig in zip(specs, res):
+        ctx.count(["fresh", sp], nontrivial=True, tag="oracle:fresh-process:" + sp["route"])
+        here = _fresh_digest(sp)
+        if here != dig:
+            what = (f"as the first call of a fresh interpreter the construction {sp['route']} / method {sp['method']} {dig}" if dig.startswith("raised")
+                    else f"construction {sp['route']} / method {sp['method']} as the first call of a fresh interpreter (get_shell_grid(r_sq=False) first) gives "
+                         "another grid or another get_shell_grid answer than in the running process")
+            ctx.fail("oracle", "atomgrid.AtomGrid:fresh-process", what + (f"; in the running process: {here}" if here.startswith("raised") else ""),
+                     witness=sp, snippet=FRESH_SNIP.format(spec=json.dumps(sp)))
+
+    # ---- classes 8, 12: special and extreme but legal grids through all clauses of the property --------------------------------
+    special = []
+    for method in (METHODS if large else [rng.choice(METHODS), "lebedev"]):
+        d = rng.randrange(1, MAXDEG[method] + 1)
+        special += [
+            (method, np.array([0.0]), np.array([1.0]), [d], "single r=0 shell"),
+            (method, np.array([0.7]), np.array([0.3]), [d], "single shell"),
+            (method, np.array([0.0, 0.0, 1.0]), np.array([1.0, 2.0, 0.5]), [d, d, 3], "two r=0 shells"),
+            (method, np.array([1e-160, 1e-50, 1.0]), np.array([1.0, 1e12, 1e-12]), [d, 3, d], "tiny radii"),
+            (method, np.array([1e150, 3e100, 2.0]), np.array([1e-12, 1.0, 1e12]), [3, d, d], "huge radii"),
+            (method, np.array([2.0 ** 20, 1.0]), np.array([1.0, 1.0]), [d, d], "shell through the origin"),
+        ]
+    for (method, pts, wts, degs, what) in special:
+        for center in (None, np.array([2.0 ** 20, -(2.0 ** 14), 2.0 ** 10 + 1.0])):
+            if what == "shell through the origin" and center is None:
+                center = np.array([2.0 ** 20, 0.0, 0.0])
+            rotate = rng.choice([0, rng.randrange(1, 10 ** 5)])
+            ctx.count(["special", what, method, degs, rotate, None if center is None else center.tolist()], nontrivial=True, tag="oracle:special:" + what)
+            try:
+                _oracle_grid(ctx, ag, ang, bg, method, pts, wts, degs, rotate, center, "atomgrid.AtomGrid")
+            except Exception as e:  # noqa: BLE001
+                ctx.fail("oracle", "atomgrid.AtomGrid", f"{what}: construction / evaluation raised {type(e).__name__}: {e} [method={method}, degrees={degs}, rotate={rotate}]",
+                         witness={"rgrid_points": pts.tolist(), "rgrid_weights": wts.tolist(), "degrees": degs, "rotate": rotate, "method": method})
+
+    # ---- class 12 / 8 for from_pruned: nodes exactly on radius*r_sector, r = 0 with a bound at 0, radii over 20 orders of magnitude
+    for k in range(12 if not large else 200):
+        method = rng.choice(METHODS)
+        pairs = _supported(ang, method)
+        mag = 10.0 ** rng.choice([-10, -5, 0, 0, 5, 10])
+        S = rng.randrange(1, 5)
+        rsect = sorted(rng.uniform(0.05, 4) for _ in range(S))
+        if rng.random() < 0.3:
+            rsect[0] = 0.0
+        radius = mag * rng.uniform(0.3, 3.0)
+        bounds = np.array(rsect) * radius
+        pts = [float(b) for b in bounds]                       # every bound is a node
+        pts += [float(np.nextafter(b, np.inf)) for b in bounds[:2]] + [float(np.nextafter(b, -np.inf)) for b in bounds[:2] if b > 0]
+        # class 7: both sides of every bound within the factors 1.01 and 100
+        pts += [float(b * f) for b in bounds[:3] for f in (1.01, 1 / 1.01, 100.0, 0.01)]
+        pts += [0.0, mag * rng.uniform(0, 5)]
+        rng.shuffle(pts)
+        pts = np.array(pts)
+        wts = np.ones(len(pts))
+        dsec = [rng.randrange(0, MAXDEG[method] + 1) for _ in range(S + 1)]
+        ctx.count(["pruned-special", method, rsect, radius, dsec], nontrivial=True, tag="oracle:pruned-on-bounds")
+        code = SNIP_PRUNED.format(pts=pts.tolist(), wts=wts.tolist(), radius=radius, rsect=rsect, dsec=dsec, method=method)
+        try:
+            exec(compile(code, "<c05-pruned>", "exec"), {"__name__": "c05_pruned"})
+        except AssertionError as e:
+            ctx.fail("oracle", "atomgrid.AtomGrid.from_pruned", str(e)[:300] + f" [radius={radius!r}, r_sectors={rsect}]",
+                     witness={"rgrid_points": pts.tolist(), "radius": radius, "r_sectors": rsect, "d_sectors": dsec, "method": method}, snippet=code)
+    # ---- from_preset(rgrid=None): the radial grid it builds for the element runs from rmin to rmax of the element's default
+    # parameters (tabulated in angstrom) *in bohr*, with the tabulated number of nodes; conversion factor typed here from CODATA
+    # (1 angstrom = 1e-10 m, a0 = 5.29177210903e-11 m; CODATA revisions differ by 1e-9 relative, tolerance 1e-6)
+    utils = importlib.import_module("grid.utils")
+    bohr_per_angstrom = 1.0e-10 / 5.29177210903e-11
+    tabs = _preset_tables()
+    zs = sorted(set(utils._DEFAULT_POWER_RTRANSFORM_PARAMS) & set(tabs["coarse"][0]))
+    for z in rng.sample(zs, 3 if not large else min(30, len(zs))):
+        rmin, rmax, npt = utils._DEFAULT_POWER_RTRANSFORM_PARAMS[z]
+        ctx.count(["default-rgrid", z], nontrivial=True, tag="oracle:preset-default-rgrid")
+        code = SNIP_HEAD + (f"from grid.utils import _DEFAULT_POWER_RTRANSFORM_PARAMS as P\nz = {z}\nrmin, rmax, npt = P[z]\nb = 1.0e-10 / 5.29177210903e-11\n"
+                            "r = AtomGrid.from_preset(z, 'coarse').rgrid.points\n"
+                            "assert len(r) == npt and abs(r.min() / (rmin * b) - 1) < 1e-6 and abs(r.max() / (rmax * b) - 1) < 1e-6, "
+                            "f'default radial grid of Z={z}: {len(r)} nodes from {r.min()!r} to {r.max()!r} bohr, parameters say {npt} nodes from {rmin * b!r} to {rmax * b!r} bohr'\n")
+        try:
+            exec(compile(code, "<c05-default-rgrid>", "exec"), {"__name__": "c05_default_rgrid"})
+        except AssertionError as e:
+            ctx.fail("oracle", "atomgrid.AtomGrid.from_preset:default-rgrid", str(e)[:300], witness={"atnum": z, "preset": "coarse", "rgrid": None}, snippet=code)
+    # information: what AtomGrid hands out by reference on the unchanged tree (class 9 audit; not asserted)
+    g = AtomGrid(_onedgrid(bg, np.array([0.5, 1.0]), np.ones(2)), degrees=[3, 5])
+    byref = [nm for nm in ("weights", "indices", "degrees", "center", "rgrid") if getattr(g, nm) is getattr(g, nm)]
+    ctx.info("AtomGrid hands out by reference (same object on every read; an in-place edit by the caller edits the grid): " + ", ".join(byref)
+             + "; fresh on every read: points; fresh object on every call: get_shell_grid")
 
 
 def _oracle_kinds(ctx: Ctx, ag, ang, bg, budget):
@@ -1340,15 +1921,51 @@ def oracle_at(ctx: Ctx, failure):
         return
     op = w.get("op")
     try:
-        if op == "AtomGrid":
+        if op == "from_preset" and w.get("preset") is not None and w.get("rgrid_points") is not None:
+            # the property at the disagreeing preset construction: tabulated sizes, then all product-grid clauses
+            tabs = _preset_tables()
+            p, z = w["preset"], w["atnum"]
+            if p in tabs and z in tabs[p][0]:
+                rad, npt, _ = tabs[p][0][z]
+                rot = w.get("rotate", 0)
+                rot = rot[1] if isinstance(rot, list) else rot
+                rot = int(rot) if isinstance(rot, (int, bool)) else 0
+                cen = w.get("center")
+                cen = None if not isinstance(cen, list) else np.array(cen, dtype=float)
+                snip = SNIP_PRESET.format(preset=p, atnum=z)
+                try:
+                    g = ag.AtomGrid.from_preset(z, p, _onedgrid(bg, pts, wts), center=cen, rotate=rot, method=method)
+                except Exception as e:  # noqa: BLE001
+                    if len(pts) == (int(rad.sum()) if rad.dtype.kind == "i" else len(pts)):
+                        ctx.fail("oracle", f"prune_grid:{p}:Z={z}", f"from_preset({z}, {p!r}) on {len(pts)} radial points raises {type(e).__name__}: {e}", witness=w, snippet=snip)
+                    return
+                sizes = [int(x) for x in np.diff(g.indices)]
+                pairs = _supported(ang, method)
+                tabsz = _tabulated_sizes(rad, npt, pts)
+                for i, (sz, t) in enumerate(zip(sizes, tabsz)):
+                    want = _least_size(pairs, t) if t is not None else None
+                    if want is None or sz != want[1]:
+                        ctx.fail("oracle", f"prune_grid:{p}:Z={z}", f"from_preset({z}, {p!r}, method={method}): shell {i} at r={pts[i]!r} has {sz} points, tabulated {t}",
+                                 witness=w, snippet=snip)
+                        return
+                if g.size <= 20000:
+                    _oracle_grid(ctx, ag, ang, bg, method, pts, wts, [int(d) for d in g.degrees], rot, cen, f"atomgrid.AtomGrid.from_preset:{p}")
+            return
+        if op in ("AtomGrid", "_generate_atomic_grid"):
             degs = w.get("degrees")
             rot = w.get("rotate")
             rot = rot[1] if isinstance(rot, list) else rot
+            if rot is None:  # argument omitted
+                rot = _sig_default("__init__", "rotate")
+            if degs == "default":
+                degs = list(_sig_default("__init__", "degrees"))
             cen = w.get("center")
+            if isinstance(cen, str):  # omitted
+                cen = None
             if isinstance(degs, list) and degs and w.get("sizes") is None and isinstance(rot, (int, bool)) and (cen is None or len(cen) == 3):
                 if all(0 <= d <= max(p[0] for p in _supported(ang, method)) for d in degs) and len(degs) in (1, len(pts)) and 0 <= int(rot) < 2 ** 32 - len(pts):
                     _oracle_grid(ctx, ag, ang, bg, method, pts, wts, degs, int(rot), None if cen is None else np.array(cen, dtype=float), "atomgrid.AtomGrid")
-        elif op in ("from_pruned", "_find_degrees_for_radial_points") and w.get("d_sectors"):
+        elif op in ("from_pruned", "_find_degrees_for_radial_points") and w.get("d_sectors"):  # noqa: E501
             rsect = w.get("r_sectors")
             dsec = w["d_sectors"]
             radius = w.get("radius", 1.0)
